@@ -292,6 +292,33 @@ def worker(shard: dict) -> dict:
                     toks.append(rnd.choice(inf))
                     operand()
                 streams.append(toks)
+            if k % 10 == 3:
+                # long streams: runs of 30-150 prefix / postfix operators and chains of 50-250 infix operators (one operator
+                # repeated, or all of them mixed), so that depth- or length-dependent paths are exercised
+                for shape in ("prefix_run", "postfix_run", "same_infix", "mixed_infix"):
+                    toks = []
+                    if shape == "prefix_run" and pre:
+                        toks = [rnd.choice(pre) for _ in range(rnd.choice([30, 80, 150]))] + ["x0"] + ([rnd.choice(inf), "x1"] if inf else [])
+                    elif shape == "postfix_run" and post:
+                        toks = ["x0"] + [rnd.choice(post) for _ in range(rnd.choice([30, 80, 150]))] + ([rnd.choice(inf), "x1"] if inf else [])
+                    elif shape == "same_infix" and inf:
+                        op = rnd.choice(inf)
+                        toks = ["x0"]
+                        for i in range(rnd.choice([50, 120, 250])):
+                            toks += [op, f"x{i + 1}"]
+                    elif shape == "mixed_infix" and inf:
+                        toks = ["x0"]
+                        for i in range(rnd.choice([50, 120, 250])):
+                            toks.append(rnd.choice(inf))
+                            if pre and rnd.random() < 0.2:
+                                toks.append(rnd.choice(pre))
+                            toks.append(f"x{i + 1}")
+                            if post and rnd.random() < 0.2:
+                                toks.append(rnd.choice(post))
+                    if toks:
+                        streams.append(toks)
+                        acc.count("long_streams")
+                        acc.maxi("longest_stream", len(toks))
             acc.count("tables_random")
         for toks in streams:
             judge(table, toks, parser, acc)
@@ -313,7 +340,8 @@ def main(tier: str, seed: int) -> int:
     return run.finish(
         rule=(
             f"per seeded table (0-2 prefix, 1-3 infix, 0-2 postfix operators, random precedences) ALL well-formed streams of up to "
-            f"{maxlen} tokens are parsed (exhaustive per table); plus random streams up to 25+ tokens on larger tables (up to 4/6/3 operators). "
+            f"{maxlen} tokens are parsed (exhaustive per table); plus random streams up to 25+ tokens on larger tables (up to 4/6/3 operators) and long streams (runs of up to 150 prefix / postfix "
+            "operators, chains of up to 250 infix operators). "
             "distinct_nontrivial = distinct (table, stream) pairs with at least two operators whose tree matched both oracles."
         ),
         assumptions=[
